@@ -156,12 +156,16 @@ def run_family(prog, fam_name, setup, post, contracts=None, force_contract=(), b
         for (label, pc, cond, info) in res.obligations:
             if pc is None:
                 pc = []
-            fam.obls.append(Obl(f"{fam_name}/{label}@{idx}", props_for_label(label), pc + facts, cond,
-                                kind="pre", info=info, bounded=bnd, path_labels=res.labels))
+            ob = Obl(f"{fam_name}/{label}@{idx}", props_for_label(label), pc + facts, cond,
+                     kind="pre", info=info, bounded=bnd, path_labels=res.labels)
+            ob.res = res
+            fam.obls.append(ob)
 
         def emit(clause, props, goal, info=None, extra=()):
-            fam.obls.append(Obl(f"{fam_name}/{clause}@{idx}", props, list(res.pc) + facts + list(extra), goal,
-                                kind="post", info=info, bounded=bnd, path_labels=res.labels))
+            ob = Obl(f"{fam_name}/{clause}@{idx}", props, list(res.pc) + facts + list(extra), goal,
+                     kind="post", info=info, bounded=bnd, path_labels=res.labels)
+            ob.res = res
+            fam.obls.append(ob)
         post(I, res, emit)
     fam.seconds = time.time() - t0
     return fam
@@ -176,6 +180,6 @@ def props_for_label(label):
 
 
 def discharge(fam, timeout_ms=30000, seed=0):
-    for o in fam.obls:
-        o.verdict = solver.prove(o.assumptions, o.goal, timeout_ms=timeout_ms, seed=seed)
+    from . import engine
+    engine.discharge_all(fam, seed, timeout_ms)
     return fam
